@@ -114,6 +114,10 @@ def fixed_histories():
     out = []
     for i, h in enumerate(hs):
         out.append({'cmds': h, 'env': dict(env, MICROWAVE=5.0) if i in (9, 10) else env, 'reg': reg})
+    # a registry duration that changes by a step that is tiny RELATIVE to its value (a sweep in fine steps): the change must show
+    out.append({'cmds': [['add', L('Wait', [0], dur=['reg', 'k0'], ch='ALL')], ['add', L('Rx180', [0])], ['add', L('Rx180', [1])],
+                         ['obs', 'listing'], ['obs', 'duration'], ['setreg', 'k0', 1000004.0], ['obs', 'duration'], ['obs', 'listing']],
+                'env': env, 'reg': {'k0': 1000000.0, 'k1': 2.0}})
     return out
 
 
